@@ -462,38 +462,52 @@ theorem matchSegs_extends {row : Row} {ss : List Str} {i : Nat} {o0 o : List Nat
     | nil => simp [matchSegs] at h; exact ⟨[], by simp [h]⟩
     | cons s ss => simp [matchSegs] at h
   | cons p ps ih =>
-    cases ss with
-    | nil => simp [matchSegs] at h
-    | cons seg rest =>
-      have lift : ∀ {o1 : List Nat} {ss' : List Str}, matchSegs ps ss' (i + 1) o1 = some o →
-          (∃ e0, o1 = o0 ++ e0 ∧ ∀ k ∈ e0, i ≤ k) → ∃ extra, o = o0 ++ extra ∧ ∀ k ∈ extra, i ≤ k := by
-        intro o1 ss' h1 ⟨e0, he0, hk0⟩
-        obtain ⟨e, he, hk⟩ := ih h1
-        refine ⟨e0 ++ e, by rw [he, he0]; simp, ?_⟩
-        intro k hk'
-        simp at hk'
-        rcases hk' with hk' | hk'
-        · exact hk0 k hk'
-        · have := hk k hk'; omega
-      cases p with
-      | unit => simp only [matchSegs] at h; exact lift h ⟨[], by simp⟩
-      | param n => simp only [matchSegs] at h; exact lift h ⟨[], by simp⟩
-      | optional m =>
+    have lift : ∀ {o1 : List Nat} {ss' : List Str}, matchSegs ps ss' (i + 1) o1 = some o →
+        (∃ e0, o1 = o0 ++ e0 ∧ ∀ k ∈ e0, i ≤ k) → ∃ extra, o = o0 ++ extra ∧ ∀ k ∈ extra, i ≤ k := by
+      intro o1 ss' h1 ⟨e0, he0, hk0⟩
+      obtain ⟨e, he, hk⟩ := ih h1
+      refine ⟨e0 ++ e, by rw [he, he0]; simp, ?_⟩
+      intro k hk'
+      simp at hk'
+      rcases hk' with hk' | hk'
+      · exact hk0 k hk'
+      · have := hk k hk'; omega
+    cases p with
+    | unit => simp only [matchSegs] at h; exact lift h ⟨[], by simp⟩
+    | param n =>
+      cases ss with
+      | nil => simp [matchSegs] at h
+      | cons seg rest => simp only [matchSegs] at h; exact lift h ⟨[], by simp⟩
+    | optional m =>
+      cases ss with
+      | nil => simp only [matchSegs] at h; exact lift h ⟨[], by simp⟩
+      | cons seg rest =>
         simp only [matchSegs] at h
-        split at h
-        · exact lift h ⟨[i], rfl, by simp⟩
-        · exact lift h ⟨[], by simp⟩
-      | static m =>
-        simp only [matchSegs] at h
-        split at h
-        · exact lift h ⟨[], by simp⟩
-        · split at h
+        cases hp : matchSegs ps rest (i + 1) (o0 ++ [i]) with
+        | some o' =>
+          rw [hp] at h
+          simp only [Option.some.injEq] at h
+          subst h
+          exact lift hp ⟨[i], rfl, by simp⟩
+        | none =>
+          rw [hp] at h
+          exact lift h ⟨[], by simp⟩
+    | static m =>
+      simp only [matchSegs] at h
+      split at h
+      · exact lift h ⟨[], by simp⟩
+      · cases ss with
+        | nil => simp at h
+        | cons seg rest =>
+          simp only at h
+          split at h
           · exact lift h ⟨[], by simp⟩
           · simp at h
-      | splat n => simp [matchSegs] at h; exact ⟨[], by simp [h]⟩
+    | splat n => simp [matchSegs] at h; exact ⟨[], by simp [h]⟩
 
 /-- Along a route of the old locale that matches, the same route of the new locale (same shape) rebuilds the
-    path without panicking; every segment is kept, except static ones, replaced by their counterpart. -/
+    path without panicking; every segment is kept, except static ones, replaced by their counterpart; and what is
+    rebuilt is served by the new locale's route. -/
 theorem construct_of_match {rowA : Row} : ∀ {rowB : Row} {ss : List Str} {i : Nat} {o0 o : List Nat} (b : PB),
     Spec.compatRow rowA rowB = true → (∀ s ∈ ss, Spec.goodSeg s = true) → (∀ k ∈ o0, k < i) →
     matchSegs rowA ss i o0 = some o →
@@ -516,7 +530,7 @@ theorem construct_of_match {rowA : Row} : ∀ {rowB : Row} {ss : List Str} {i : 
       simp only [Spec.compatRow, Bool.and_eq_true] at hc
       obtain ⟨hpq, hc'⟩ := hc
       cases ss with
-      | nil => simp [matchSegs] at hm
+      | nil => exact ⟨[], by simp [construct], by simp, rfl⟩
       | cons seg rest =>
         have hseg : Spec.goodSeg seg = true := hs seg (by simp)
         have hrest : ∀ s ∈ rest, Spec.goodSeg s = true := fun s h => hs s (by simp [h])
@@ -566,15 +580,22 @@ theorem construct_of_match {rowA : Row} : ∀ {rowB : Row} {ss : List Str} {i : 
           cases q <;> simp [Spec.compatSeg] at hpq
           simp only [matchSegs] at hm
           simp only [construct]
-          split at hm
-          · obtain ⟨extra, he, _⟩ := matchSegs_extends hm
-            have hin : o.contains i = true := by rw [he]; simp
+          cases hp : matchSegs ps rest (i + 1) (o0 ++ [i]) with
+          | some o' =>
+            rw [hp] at hm
+            simp only [Option.some.injEq] at hm
+            subst hm
+            obtain ⟨extra, he, _⟩ := matchSegs_extends hp
+            have hin : o'.contains i = true := by rw [he]; simp
             rw [if_pos hin, push_good b hseg]
-            refine consume seg (o0 ++ [i]) hseg ?_ (Or.inl (by simp)) hm
+            refine consume seg (o0 ++ [i]) hseg ?_ (Or.inl (by simp)) hp
             intro k hk; simp at hk; rcases hk with hk | hk
             · exact ho1 k hk
             · omega
-          · obtain ⟨extra, he, hk⟩ := matchSegs_extends hm
+          | none =>
+            rw [hp] at hm
+            simp only at hm
+            obtain ⟨extra, he, hk⟩ := matchSegs_extends hm
             have hnin : ¬ (o.contains i = true) := by
               rw [he]; simp
               refine ⟨fun h => ?_, fun h => ?_⟩
@@ -611,7 +632,6 @@ theorem construct_of_match {rowA : Row} : ∀ {rowB : Row} {ss : List Str} {i : 
             · simp at hm
         | splat n =>
           cases q <;> simp [Spec.compatSeg] at hpq
-          simp only [matchSegs] at hm
           simp only [construct, push_good b hseg, pushAll_good _ hrest]
           refine ⟨seg :: rest, by simp, hs, ?_⟩
           exact pointwise_refl (by simp) _
@@ -1169,68 +1189,82 @@ theorem switch_normal (c : Cfg) (base : Str) (X Y : Nat) (rX rY : List Str)
 
 /-! ### "served by the same route": the localized segments are rewritten -/
 
-/-- `match_path_segments` succeeds exactly on the narrow reading `Spec.servesRowExact` -/
+/-- `match_path_segments` succeeds exactly when the route serves the segments (declarative `Spec.servesRow`),
+    whatever the index and the set of optionals it starts from -/
 theorem matchSegs_isSome (row : Row) : ∀ (ss : List Str) (i : Nat) (o0 : List Nat),
-    (matchSegs row ss i o0).isSome = Spec.servesRowExact row ss := by
+    (matchSegs row ss i o0).isSome = Spec.servesRow row ss := by
   induction row with
-  | nil => intro ss i o0; cases ss <;> simp [matchSegs, Spec.servesRowExact]
+  | nil => intro ss i o0; cases ss <;> simp [matchSegs, Spec.servesRow]
   | cons p ps ih =>
     intro ss i o0
-    cases ss with
-    | nil => cases p <;> simp [matchSegs, Spec.servesRowExact]
-    | cons seg rest =>
-      cases p with
-      | unit => simp only [matchSegs, Spec.servesRowExact]; exact ih _ _ _
-      | param n => simp only [matchSegs, Spec.servesRowExact]; exact ih _ _ _
-      | optional m =>
-        simp only [matchSegs, Spec.servesRowExact]
-        by_cases h : m = seg
-        · subst h; simp only [if_true]; exact ih _ _ _
-        · have h' : ¬ seg = m := fun e => h e.symm
-          simp only [h, h', if_false]; exact ih _ _ _
-      | static m =>
-        simp only [matchSegs, Spec.servesRowExact]
-        by_cases he : m.isEmpty = true
-        · simp only [he, if_true]; exact ih _ _ _
-        · simp only [he]
+    cases p with
+    | unit => simp only [matchSegs, Spec.servesRow]; exact ih _ _ _
+    | param n =>
+      cases ss with
+      | nil => simp [matchSegs, Spec.servesRow]
+      | cons seg rest => simp only [matchSegs, Spec.servesRow]; exact ih _ _ _
+    | optional m =>
+      cases ss with
+      | nil =>
+        simp only [matchSegs, Spec.servesRow, Bool.or_false]; exact ih _ _ _
+      | cons seg rest =>
+        simp only [matchSegs, Spec.servesRow]
+        rw [← ih rest (i + 1) (o0 ++ [i]), ← ih (seg :: rest) (i + 1) o0]
+        cases matchSegs ps rest (i + 1) (o0 ++ [i]) <;> simp
+    | static m =>
+      simp only [matchSegs, Spec.servesRow]
+      by_cases he : m.isEmpty = true
+      · simp only [he, if_true]; exact ih _ _ _
+      · simp only [he]
+        cases ss with
+        | nil => simp
+        | cons seg rest =>
           by_cases h : m = seg
           · subst h; simp only [if_true, beq_self_eq_true, Bool.true_and]; exact ih _ _ _
           · have h' : (seg == m) = false := by simp; exact fun e => h e.symm
             simp [h, h']
-      | splat n => simp [matchSegs, Spec.servesRowExact]
+    | splat n => simp [matchSegs, Spec.servesRow]
 
-/-- the narrow reading is a special case of the full one -/
-theorem servesRowExact_serves (row : Row) : ∀ (r : List Str),
-    Spec.servesRowExact row r = true → Spec.servesRow row r = true := by
-  induction row with
-  | nil => intro r h; simpa [Spec.servesRowExact, Spec.servesRow] using h
+/-- a route that serves the empty path: so does the route of the same shape -/
+theorem servesRow_nil_compat {rowA : Row} : ∀ {rowB : Row}, Spec.compatRow rowA rowB = true →
+    Spec.servesRow rowA [] = true → Spec.servesRow rowB [] = true := by
+  induction rowA with
+  | nil => intro rowB hc _; cases rowB with
+    | nil => rfl
+    | cons q qs => simp [Spec.compatRow] at hc
   | cons p ps ih =>
-    intro r h
-    cases r with
-    | nil => cases p <;> simp [Spec.servesRowExact] at h
-    | cons s tl =>
+    intro rowB hc h
+    cases rowB with
+    | nil => simp [Spec.compatRow] at hc
+    | cons q qs =>
+      simp only [Spec.compatRow, Bool.and_eq_true] at hc
+      obtain ⟨hpq, hc'⟩ := hc
       cases p with
-      | unit => simp only [Spec.servesRowExact] at h; simp only [Spec.servesRow]; exact ih _ h
-      | param n => simp only [Spec.servesRowExact] at h; simp only [Spec.servesRow]; exact ih _ h
+      | unit =>
+        cases q <;> simp [Spec.compatSeg] at hpq
+        simp only [Spec.servesRow] at h ⊢; exact ih hc' h
+      | param n => simp [Spec.servesRow] at h
       | optional m =>
-        simp only [Spec.servesRowExact] at h
-        simp only [Spec.servesRow, Bool.or_eq_true]
-        split at h
-        · exact Or.inr (ih _ h)
-        · exact Or.inl (ih _ h)
-      | static m =>
-        simp only [Spec.servesRowExact] at h
-        simp only [Spec.servesRow]
-        split
-        · rename_i he; rw [if_pos he] at h; exact ih _ h
-        · rename_i he
-          rw [if_neg he] at h
-          simp only [Bool.and_eq_true] at h ⊢
-          exact ⟨h.1, ih _ h.2⟩
-      | splat n => simp [Spec.servesRow]
+        cases q <;> simp [Spec.compatSeg] at hpq
+        simp only [Spec.servesRow, Bool.or_false] at h ⊢; exact ih hc' h
+      | static a =>
+        cases q <;> simp [Spec.compatSeg] at hpq
+        rename_i b'
+        simp only [Spec.servesRow] at h ⊢
+        by_cases ha : a.isEmpty = true
+        · have hb' : b'.isEmpty = true := by
+            rcases hpq with h' | h'
+            · simpa using h'.2
+            · have : Spec.goodSeg a = true := h'.1
+              simp [Spec.goodSeg, ha] at this
+          rw [if_pos ha] at h; rw [if_pos hb']; exact ih hc' h
+        · rw [if_neg ha] at h; simp at h
+      | splat n =>
+        cases q <;> simp [Spec.compatSeg] at hpq
+        simp [Spec.servesRow]
 
 /-- Along a route of the old locale that matches, what the same route of the new locale rebuilds is served by
-    that route (in the full reading). -/
+    that route. -/
 theorem construct_served {rowA : Row} : ∀ {rowB : Row} {ss : List Str} {i : Nat} {o0 o : List Nat} (b : PB),
     Spec.compatRow rowA rowB = true → (∀ s ∈ ss, Spec.goodSeg s = true) → (∀ k ∈ o0, k < i) →
     matchSegs rowA ss i o0 = some o →
@@ -1249,14 +1283,20 @@ theorem construct_served {rowA : Row} : ∀ {rowB : Row} {ss : List Str} {i : Na
     cases rowB with
     | nil => simp [Spec.compatRow] at hc
     | cons q qs =>
+      have hcfull := hc
       simp only [Spec.compatRow, Bool.and_eq_true] at hc
       obtain ⟨hpq, hc'⟩ := hc
+      have ho1 : ∀ k ∈ o0, k < i + 1 := fun k hk => Nat.lt_succ_of_lt (ho k hk)
       cases ss with
-      | nil => simp [matchSegs] at hm
+      | nil =>
+        -- the path is used up: nothing is rebuilt, and the rest of the new route takes nothing either
+        refine ⟨[], by simp [construct], ?_⟩
+        have hA : Spec.servesRow (p :: ps) [] = true := by
+          rw [← matchSegs_isSome (p :: ps) [] i o0, hm]; rfl
+        exact servesRow_nil_compat hcfull hA
       | cons seg rest =>
         have hseg : Spec.goodSeg seg = true := hs seg (by simp)
         have hrest : ∀ s ∈ rest, Spec.goodSeg s = true := fun s h => hs s (by simp [h])
-        have ho1 : ∀ k ∈ o0, k < i + 1 := fun k hk => Nat.lt_succ_of_lt (ho k hk)
         -- "this element consumes `seg` and pushes `y`"
         have consume : ∀ (y : Str) (o1 : List Nat), (∀ k ∈ o1, k < i + 1) →
             matchSegs ps rest (i + 1) o1 = some o →
@@ -1279,18 +1319,25 @@ theorem construct_served {rowA : Row} : ∀ {rowB : Row} {ss : List Str} {i : Na
         | optional m =>
           cases q <;> simp [Spec.compatSeg] at hpq
           simp only [matchSegs] at hm
-          split at hm
-          · obtain ⟨extra, he, _⟩ := matchSegs_extends hm
-            have hin : o.contains i = true := by rw [he]; simp
+          cases hp : matchSegs ps rest (i + 1) (o0 ++ [i]) with
+          | some o' =>
+            rw [hp] at hm
+            simp only [Option.some.injEq] at hm
+            subst hm
+            obtain ⟨extra, he, _⟩ := matchSegs_extends hp
+            have hin : o'.contains i = true := by rw [he]; simp
             have ho' : ∀ k ∈ o0 ++ [i], k < i + 1 := by
               intro k hk; simp at hk; rcases hk with hk | hk
               · exact ho1 k hk
               · omega
-            obtain ⟨out, h1, h2⟩ := consume seg (o0 ++ [i]) ho' hm
+            obtain ⟨out, h1, h2⟩ := consume seg (o0 ++ [i]) ho' hp
             refine ⟨seg :: out, ?_, ?_⟩
             · simp only [construct]; rw [if_pos hin, push_good b hseg]; exact h1
             · simp only [Spec.servesRow, Bool.or_eq_true]; exact Or.inr h2
-          · obtain ⟨extra, he, hk⟩ := matchSegs_extends hm
+          | none =>
+            rw [hp] at hm
+            simp only at hm
+            obtain ⟨extra, he, hk⟩ := matchSegs_extends hm
             have hnin : ¬ (o.contains i = true) := by
               rw [he]; simp
               refine ⟨fun h => ?_, fun h => ?_⟩
@@ -1349,9 +1396,9 @@ theorem firstMatch_none {ss : List Str} {t : Tables} {pos : Nat} (h : firstMatch
       · subst e; exact hr
       · exact ih h row e
 
-/-- no match by `localize_path` means no route of the old locale serves the segments (narrow reading) -/
+/-- no match by `localize_path` means no route of the old locale serves the segments -/
 theorem firstMatch_none_serves {ss : List Str} {t : Tables} (h : firstMatch ss t 0 = none) :
-    t.any (fun row => Spec.servesRowExact row ss) = false := by
+    t.any (fun row => Spec.servesRow row ss) = false := by
   rw [List.any_eq_false]
   intro row hrow
   have := firstMatch_none h row hrow
@@ -1377,9 +1424,9 @@ theorem pairServes_get {tA tB : Tables} {k : Nat} {rowA rowB : Row} {r r' : List
         simp [Spec.pairServes, ih hA hB]
 
 /-- with route tables of the same shape: `localize_path` either finds no route — and then no route of the old
-    locale serves the path in the narrow reading — or appends segments that the same route of the new locale serves -/
+    locale serves the path — or appends segments that the same route of the new locale serves -/
 theorem localizePath_serves {tA tB : Tables} (hc : Spec.compatTables tA tB = true) (path : Str) (b : PB) :
-    (localizePath path tA tB b = .ok none ∧ tA.any (fun row => Spec.servesRowExact row (segs path)) = false) ∨
+    (localizePath path tA tB b = .ok none ∧ tA.any (fun row => Spec.servesRow row (segs path)) = false) ∨
     ∃ out, localizePath path tA tB b = .ok (some (b ++ out)) ∧ Spec.pairServes tA tB (segs path) out = true := by
   simp only [localizePath]
   cases hf : firstMatch (segs path) tA 0 with
@@ -1393,7 +1440,7 @@ theorem localizePath_serves {tA tB : Tables} (hc : Spec.compatTables tA tB = tru
     obtain ⟨rowB, hB, hcr, _⟩ := compatTables_get hc hrow
     obtain ⟨out, h1, h2⟩ := construct_served b hcr (segs_all_good path) (by simp) hm
     refine ⟨out, by simp [hB, h1], ?_⟩
-    refine pairServes_get hrow hB (servesRowExact_serves _ _ ?_) h2
+    refine pairServes_get hrow hB ?_ h2
     rw [← matchSegs_isSome rowA (segs path) 0 [], hm]; rfl
 
 /-- `newPathname_spec` with the strong judgement on the remaining segments added -/
@@ -1403,7 +1450,7 @@ theorem newPathname_spec_strong (path base newName : Str) (newIsDefault : Bool) 
     ∃ p r', newPathname path base newName newIsDefault oldName oldT newT = .ok p ∧
       segs p = segs base ++ (if newIsDefault then [] else [newName]) ++ r' ∧
       Spec.onlyLocalizedChanged oldT newT (restSegs oldName (segs rest)) r' = true ∧
-      Spec.sameRouteServesOpt Spec.servesRowExact oldT newT (restSegs oldName (segs rest)) r' = true := by
+      Spec.sameRouteServesOpt oldT newT (restSegs oldName (segs rest)) r' = true := by
   generalize hb1 : baseBuilder base newName newIsDefault = b1
   have hb1s : b1.flatMap segs = segs base ++ (if newIsDefault then [] else [newName]) := by
     subst hb1
@@ -1420,11 +1467,11 @@ theorem newPathname_spec_strong (path base newName : Str) (newIsDefault : Bool) 
       rw [segs_rest1 rest l (hold l rfl)]
       cases segs rest <;> simp [restSegs]
   -- the path is copied: fine whenever no route of the old locale serves it
-  have unloc : Spec.sameRouteServesOpt Spec.servesRowExact oldT newT (segs rest1) (segs rest1) = true →
+  have unloc : Spec.sameRouteServesOpt oldT newT (segs rest1) (segs rest1) = true →
       ∃ p r', Outcome.ok (PB.build (b1.push rest1)) = .ok p ∧
       segs p = segs base ++ (if newIsDefault then [] else [newName]) ++ r' ∧
       Spec.onlyLocalizedChanged oldT newT (restSegs oldName (segs rest)) r' = true ∧
-      Spec.sameRouteServesOpt Spec.servesRowExact oldT newT (restSegs oldName (segs rest)) r' = true := fun hsame =>
+      Spec.sameRouteServesOpt oldT newT (restSegs oldName (segs rest)) r' = true := fun hsame =>
     ⟨_, segs rest1, rfl, by rw [segs_build, flatMap_segs_push, hb1s],
       by rw [hr1s]; exact onlyLocalizedChanged_refl _ _ _, by rw [← hr1s]; exact hsame⟩
   simp only [newPathname, hs, hb1, hr1]
@@ -1438,7 +1485,7 @@ theorem newPathname_spec_strong (path base newName : Str) (newIsDefault : Bool) 
       have hct : Spec.compatTables o n = true := by simpa [Spec.compatOpt] using hc
       rcases localizePath_serves hct rest1 b1 with ⟨h, hno⟩ | ⟨out, h, hserv⟩
       · rw [h]
-        exact unloc (by simp [Spec.sameRouteServesOpt, Spec.sameRouteServesIf, hno])
+        exact unloc (by simp [Spec.sameRouteServesOpt, Spec.sameRouteServes, hno])
       · rcases localizePath_compat hct rest1 b1 with h' | ⟨out', h', hg, hrel⟩
         · rw [h] at h'; simp at h'
         · rw [h] at h'
@@ -1449,6 +1496,6 @@ theorem newPathname_spec_strong (path base newName : Str) (newIsDefault : Bool) 
           refine ⟨_, out, rfl, ?_, by rw [← hr1s]; exact hrel, ?_⟩
           · rw [segs_build, List.flatMap_append, hb1s, flatMap_segs_good hg]
           · rw [← hr1s]
-            simp [Spec.sameRouteServesOpt, Spec.sameRouteServesIf, hserv]
+            simp [Spec.sameRouteServesOpt, Spec.sameRouteServes, hserv]
 
 end I18nVerif.Router
